@@ -342,3 +342,24 @@ func shortType(s string) string {
 	s = strings.ReplaceAll(s, load.Mod, "minify")
 	return s
 }
+
+// caseLabel names the innermost enclosing case clause of a (type) switch, e.g. "case *js.ForStmt",
+// so that constructs inside large dispatch functions get stable, distinguishable keys.
+func (c *Ctx) caseLabel(n ast.Node) string {
+	for x := c.P.Parent(n); x != nil; x = c.P.Parent(x) {
+		if cc, ok := x.(*ast.CaseClause); ok {
+			if cc.List == nil {
+				return "default"
+			}
+			var parts []string
+			for _, e := range cc.List {
+				parts = append(parts, str(e))
+			}
+			return "case " + strings.Join(parts, ",")
+		}
+		if _, ok := x.(*ast.FuncDecl); ok {
+			break
+		}
+	}
+	return ""
+}
